@@ -38,6 +38,7 @@ CHECK = dict(
         dict(name="forward", dir=D + "/forward", src="C06/forward", runs=[
             dict(name="readmsg", run="^TestVerifC06UpstreamRead$", quick=4000, thorough=200000, shards_thorough=6),
             dict(name="exchange", run="^TestVerifC06UpstreamExchange$", quick=600, thorough=20000, shards_thorough=4),
+            dict(name="handler", run="^TestVerifC06HandlerForward$", quick=400, thorough=12000, shards_thorough=4),
             dict(name="readmsg-fuzz", run="^FuzzVerifC06Upstream$", quick=0, thorough=0, tier_only="thorough",
                  fuzz="^FuzzVerifC06Upstream$", fuzztime="90s", timeout_thorough=600, env={"GOMAXPROCS": "4"}),
         ]),
